@@ -1723,6 +1723,8 @@ static void backup_case(int caseidx) {
     dirsnap_t before, after;
     dbh_t h2;
     mm_t mm;
+    model_t cm;
+    int have_cm = 0, have_h2 = 0;
     snprintf(dst, sizeof(dst), "%s/final-copy", B->cdir);
     snap_take(&before, B->src);
     rc = ldb_copy(B->src, dst, ldb_dbopt_default);
@@ -1734,13 +1736,25 @@ static void backup_case(int caseidx) {
       if (snap_diff(&before, &after, NULL, diff, sizeof(diff)) > 0)
         lv("source-changed-by-backup", "ldb_copy changed the closed source: %s", diff);
       dbh_init(&h2, dst, &cfg);
+      have_h2 = 1;
       rc = dbh_open(&h2, 0);
       if (rc != LDB_OK) lv("backup-not-openable", "ldb_copy of the closed source does not open: %d (%s)", rc, ldb_strerror(rc));
       else {
         check_equal(h2.db, &B->m, B->m.version, &mm);
         if (mm.n > 0) lv("backup-contents-differ", "ldb_copy of the closed source: %d mismatches: %s", mm.n, mm.first);
+        else {
+          /* independence of the copy: write into it (values the source never had), close it; the source, opened
+             afterwards, must know nothing of them - and the copy, opened once more after the source has been
+             written to, nothing of the source's later writes (whatever reuse_logs says on either side) */
+          int n = 3 + (int)vr_uniform(&B->r, 6);
+          model_clone(&B->m, B->m.version, &cm);
+          have_cm = 1;
+          for (i = 0; i < n; i++) bk_put(B, &h2, &cm, (int)vr_uniform(&B->r, (uint32_t)cm.nrows), 16 + vr_uniform(&B->r, 2000), bk_cvid(B));
+          if (vr_chance(&B->r, 400)) ldb_test_compact_memtable(h2.db);
+          vh_count("copies_written_to_for_independence", 1);
+        }
       }
-      dbh_destroy(&h2);
+      dbh_close(&h2);
       vh_distinct("c20_state", "backup|closed|copy");
     }
     snap_free(&before);
@@ -1748,7 +1762,27 @@ static void backup_case(int caseidx) {
     /* and the source is still a usable database */
     rc = dbh_open(&B->h, 0);
     if (rc != LDB_OK) lv("source-unusable", "the source does not reopen after ldb_copy: %d (%s)", rc, ldb_strerror(rc));
-    else bk_source_check(B, "after reopening the source");
+    else {
+      bk_source_check(B, "after reopening the source (the copy had been written to meanwhile)");
+      if (have_cm && !B->abandon) {
+        int n = 3 + (int)vr_uniform(&B->r, 6);
+        for (i = 0; i < n; i++) bk_put(B, &B->h, &B->m, (int)vr_uniform(&B->r, (uint32_t)B->m.nrows), 16 + vr_uniform(&B->r, 2000), bk_vid(B));
+        if (vr_chance(&B->r, 400)) ldb_test_compact_memtable(B->h.db);
+        dbh_close(&B->h);
+        rc = dbh_open(&h2, 0);
+        if (rc != LDB_OK) lv("backup-not-openable", "the copy made by ldb_copy does not reopen after the source was written to: %d (%s)", rc, ldb_strerror(rc));
+        else {
+          check_equal(h2.db, &cm, cm.version, &mm);
+          if (mm.n > 0) lv("copy-not-independent", "the copy made by ldb_copy changed after later writes to the source: %d mismatches: %s", mm.n, mm.first);
+          dbh_close(&h2);
+        }
+        rc = dbh_open(&B->h, 0);
+        if (rc != LDB_OK) lv("source-unusable", "the source does not reopen at the end: %d (%s)", rc, ldb_strerror(rc));
+        else bk_source_check(B, "at the very end");
+      }
+    }
+    if (have_h2) dbh_destroy(&h2);
+    if (have_cm) m_free(&cm);
   }
   vh_count("cases", 1);
   vh_count("steps", (uint64_t)g_step);
